@@ -265,7 +265,7 @@ header and fault enumeration (every position)",
         edge_cases().into_iter(),
         test_case,
     );
-    let n = rep.n(400, 12000);
+    let n = rep.n(1500, 15000);
     rep.run_prop(
         "files",
         "generated model files (all nested types on the wire, with/without tag models, empty \
